@@ -70,7 +70,11 @@ func TestVerifC11Shared(t *testing.T) {
 		}
 		out.Linef("case %d", c)
 		cur := map[*componentstatus.InstanceID]componentstatus.Status{}
-		rep := NewReporter(func(id *componentstatus.InstanceID, ev *componentstatus.Event) { cur[id] = ev.Status() }, func(error) {})
+		seen := map[*componentstatus.InstanceID][]string{}
+		rep := NewReporter(func(id *componentstatus.InstanceID, ev *componentstatus.Event) {
+			cur[id] = ev.Status()
+			seen[id] = append(seen[id], fmt.Sprint(int(ev.Status())))
+		}, func(error) {})
 		m := sharedcomponent.NewMap[string, *verifComp]()
 		comp, err := m.LoadOrStore("k", func() (*verifComp, error) { return &verifComp{}, nil })
 		if err != nil {
@@ -112,6 +116,11 @@ func TestVerifC11Shared(t *testing.T) {
 				reports++
 				dump()
 			}
+		}
+		// the whole event sequence every instance's watcher was shown (not only where it ended)
+		out.Linef("op evs")
+		for i, id := range ids {
+			out.Linef("obs evs %d %s", i, strings.Join(seen[id], ","))
 		}
 		if attaches >= 2 {
 			out.Linef("nt")
